@@ -163,7 +163,7 @@ func sysRun(id int, cfg *sysConfig, dir string, acts [][]interface{}, pick func(
 	s.Emitted = make(chan interface{}, 4096)
 	s.Errors = make(chan interface{}, 4096)
 	h := &sysHarness{afterWrite: make(chan struct{}, 64), timers: map[*TimerEntry]*sysTimer{}, byId: map[string]*TimerEntry{}}
-	verifHook = h.hook
+	setHook(h.hook)
 	healthy := true
 	defer func() {
 		// end of the run: with the context cancelled nothing that is still waiting can emit anything new (actions are
